@@ -36,6 +36,7 @@ def make_tree(root, toolign, above=False):
     os.makedirs(os.path.join(root, "outside"))
     open(os.path.join(root, "outside", "o.md"), "w").write("out")
     os.symlink("a.md", os.path.join(t, "ln_in.md"))
+    os.symlink("big.md", os.path.join(t, "ln_big.md"))
     os.symlink("../outside/o.md", os.path.join(t, "ln_out.md"))
     os.symlink("nonexist.md", os.path.join(t, "ln_dangling.md"))
     os.symlink("sub", os.path.join(t, "ln_dir"))
